@@ -49,7 +49,8 @@ class RouteRefresh(object):
 
          :param msg: raw hex message """
 
-        self.afi, self.res, self.safi = struct.unpack("!HBB", msg)
+        # the message may carry ORF entries (RFC 5291) after the address family
+        self.afi, self.res, self.safi = struct.unpack("!HBB", msg[:4])
         return self.afi, self.res, self.safi
 
     @staticmethod
